@@ -68,6 +68,15 @@ for fid, fn in enumerate(MFIELDS):
                     shape={"method": fn, "arguments": nargs, "receiver": rkn, "argument kinds": [KINDS[k] for k in ks]},
                     contract_stubs=["text kernels (slice, find, replace, trim, to_uppercase, to_lowercase, to_number, len, join) -> arbitrary result of their type"])
 
+add("index_target_assign", "6.f", "index_target_step!(index_target_assign, true);", input_class="index-target:assign",
+    shape={"statement": "f()[0] get v", "base of the index chain": "a call"})
+add("index_target_method", "6.f", "index_target_step!(index_target_method, false);", input_class="index-target:method",
+    shape={"statement": "f()[0].push(v)", "base of the index chain": "a call"})
+
+add("bare_member", "6.g", "", input_class="bare-member", shape={"expression": "x.len (a member access that is not called)"})
+add("callee_not_a_name", "6.g", "", input_class="callee", shape={"expression": "a[0]() (the callee is neither a name nor a method)"},
+    contract_stubs=["eval_member_call / eval_builtin_call / exec_block_with_flow -> cut (not reached for this callee)"])
+
 PROP = Property(
     "C06",
     anchors={RE: "src/runtime.rs", "pool.rs": "src/arena/pool.rs"},
@@ -80,6 +89,10 @@ PROP = Property(
           ["runtime::Runtime::eval_expr"], "5 x 5 kinds, the empty array, any double as index"),
         O("6.d", "an `if to say` / `jasi` condition of any runtime kind ends with the body entered, skipped, or a reported runtime error",
           ["runtime::Runtime::exec_stmt"], "2 statements x 5 kinds"),
+        O("6.f", "an index chain whose base is not a variable (assignment target or receiver of a mutating method) is a reported error",
+          ["runtime::Runtime::assign_index", "runtime::Runtime::get_mutable_array", "runtime::Runtime::flatten_index_target"], "one index on a call result"),
+        O("6.g", "expression shapes the parser builds and the static checker lets through (`x.len` without a call, `a[0]()`, `f()()`) are reported errors",
+          ["runtime::Runtime::eval_expr", "runtime::Runtime::eval_function_call"], "one node each"),
         O("6.e", "a method call on a receiver of any runtime kind with any number and kinds of arguments ends with a value or a reported runtime error",
           ["runtime::Runtime::eval_member_call", "runtime::Runtime::eval_string_member_call", "runtime::Runtime::eval_array_member_call",
            "runtime::Runtime::eval_array_member_call_mut", "runtime::Runtime::eval_number_member_call"],
